@@ -957,6 +957,14 @@ def test (m : Mode) (name : String) (args : List V) (kws : List (String × V)) :
   | "kwt", _ :: rest, ks => .ok ((rest.length + (ks.foldl (fun acc p => kwInsert p.1 p.2 acc) []).length) % 2 == 0)
   | "eq", [v, o], [] => .ok (eqV v o)
   | "lt", [v, o], [] => .ok (cmpV v o == .lt)
+  -- `is_ne`, `is_le`, `is_gt`, `is_ge`: `!=`, `<=`, `>`, `>=` of `Value` (`PartialEq` / `Ord`)
+  | "ne", [v, o], [] => .ok (!eqV v o)
+  | "le", [v, o], [] => .ok (cmpV v o != .gt)
+  | "gt", [v, o], [] => .ok (cmpV v o == .gt)
+  | "ge", [v, o], [] => .ok (cmpV v o != .lt)
+  -- `is_true` / `is_false`: exactly the booleans
+  | "true", [v], [] => .ok (match v with | .bool true => true | _ => false)
+  | "false", [v], [] => .ok (match v with | .bool false => true | _ => false)
   | "in", [v, o], [] =>
     -- `assert_iterable(other)`, then `contains(other, value)`; an error counts as "not contained"
     (match m, o with
